@@ -11,6 +11,21 @@ pub fn generate(tier: &str, rng: &mut Rng) -> Vec<String> {
                   evs: vec!["i010203".into(), "p".into(), "i".into(), "i09".into()], items: vec![vec![1, 2, 3], vec![], vec![9]], extra_polls: 1 }.line(),
     );
     out.push("dec req none none 8192 8 Z 0 EV d000000 d0003010203 p d00 d00000000 d000000000109".to_string());
+    // rev1 §1 witnesses: BufferSettings::new(0, _) with any compression used to divide by zero in
+    // `compress` / `decompress` (fixed: "a zero buffer_size no longer divides by zero when (de)compressing")
+    for e in [tonic::codec::CompressionEncoding::Gzip, tonic::codec::CompressionEncoding::Deflate, tonic::codec::CompressionEncoding::Zstd] {
+        for server in [true, false] {
+            out.push(
+                EncCase { server, comp: Some(e), disable: false, yield_thr: 32768, buf_size: 0, max: None,
+                          evs: vec!["i010203".into()], items: vec![vec![1, 2, 3]], extra_polls: 1 }.line(),
+            );
+        }
+        let stream = frame(1, &oracle_compress(e, &[10, 11, 12]));
+        let evs = vec![format!("d{}", &hex(&stream)[1..])];
+        out.push(DecCase { dir: "req".into(), enc: Some(e), max: None, buf_size: 0, evs, stream, extra_polls: 2 }.line());
+    }
+    out.push("enc s none i 32768 0 none 5 Z 0 EV i010203".to_string());
+    out.push("dec req none none 0 6 Z 0 EV d0000000003010203".to_string());
     let n = if thorough { 30000 } else { 2500 };
     for _ in 0..n {
         out.push(gen_enc_case(rng, false, false).line());
@@ -73,7 +88,7 @@ pub fn generate(tier: &str, rng: &mut Rng) -> Vec<String> {
             evs.push("t0".into());
         }
         let dir = if rng.chance(1, 2) { "req" } else { "resp200" };
-        out.push(format!("p{}", DecCase { dir: dir.into(), enc, max: None, buf_size: *rng.pick(&[1usize, 16, 8192]), evs, stream: bytes, extra_polls: 2 }.line()));
+        out.push(format!("p{}", DecCase { dir: dir.into(), enc, max: None, buf_size: *rng.pick(&BUF_SIZES), evs, stream: bytes, extra_polls: 2 }.line()));
     }
     if thorough {
         // small-scope exhaustive: every chunking (all 2^(n-1) cut sets) of short streams
